@@ -217,6 +217,7 @@ def run(case):
         STATS.cls("cycles>=60", case["cycles"] >= 60)
         STATS.cls("every_cycle_under_traffic_from_another_thread", bool(case.get("cycleRacer")) and not case.get("alignStop") and case["cycles"] > 0 and case["config"] != "oneline")
         STATS.cls("stop_aligned_with_worker_finishing", bool(case.get("alignStop")))
+        STATS.cls("earlier_application_objects_destroyed_with_a_backlog", case.get("appCycles", 0) > 0 and case["config"] != "oneline")
         STATS.cls("stop_" + case["stop"])
         STATS.cls("app_" + case["app"])
         STATS.cls("exit_without_exec", case["stop"] == "exit_return" and case["app"] != "heap" and not case["loopRan"])
@@ -271,7 +272,11 @@ def strategy():
             alignStop=draw(st.booleans()) if (cycles >= 60 and app != "none") else False,
             cycleRacer=draw(st.sampled_from([0, 1, 1])) if cycles >= 4 else 0,  # (ignored by the runner together with alignStop)
             # the delivery of the last queued message takes longer than the 3 s the stop grants the thread to finish
-            stallMs=draw(st.sampled_from([0] * 19 + [3500])) if (config == "fluent" and racers == 0 and backlog > 0 and stop != "exit_call") else 0,
+            # (more often when the application object goes away without exec(): the worker is then on its own for the rest of the queue)
+            stallMs=draw(st.sampled_from([0] * 19 + [3500] if not (stop == "exit_return" and app != "none") else [0] * 4 + [3500])) if (config == "fluent" and racers == 0 and backlog > 0 and stop != "exit_call") else 0,
+            # earlier application objects in the same process, each destroyed without exec() while messages are queued
+            appCycles=draw(st.sampled_from([0, 0, 0, 1, 2])) if config != "oneline" else 0,
+            appCycleMsgs=draw(st.integers(1, 30)),
         )
 
     return scen()
